@@ -1,5 +1,6 @@
 import NbioVerif.Lemmas.WsRfcMain
 import NbioVerif.Lemmas.RfcBridge
+import NbioVerif.Lemmas.WsUpProof
 import NbioVerif.Lemmas.C13Table
 /-! C13 — WebSocket frame validation follows RFC 6455.
 
@@ -64,6 +65,26 @@ theorem c13_partial (g : Cfg) (e : Env) (infl : Bytes → Rfc.TInfl) (hinfl : In
   unfold Agree at hrun ⊢
   rw [hk, ha, he]
   exact hrun
+
+/-- `Agree` only looks at the observables -/
+theorem agree_of_obs (g : Cfg) (e : Env) (i0 : Nat) (r1 r2 : PR) (v : Rfc.Res) (h : r1.obs = r2.obs) (ha : Agree g e i0 r2 v) :
+    Agree g e i0 r1 v := by
+  have hk : r1.s.k = r2.s.k := by have := congrArg (fun o => o.2.2.1) h; simpa [PR.obs] using this
+  have hacts : r1.acts = r2.acts := by have := congrArg (fun o => o.1) h; simpa [PR.obs] using this
+  have he : r1.err = r2.err := by have := congrArg (fun o => o.2.1) h; simpa [PR.obs] using this
+  unfold Agree at ha ⊢
+  rw [hk, hacts, he]
+  exact ha
+
+/-- C13 behind an upgrade hand-off: the bytes that follow a 101 response, fed through the client connection's parser in
+    any segmentation (first frames in the same read as the response included), are judged exactly as the RFC prescribes -/
+theorem c13_partial_handoff (g : Cfg) (e : Env) (infl : Bytes → Rfc.TInfl) (hinfl : InflAgrees g e infl) (hl : g.readLimit = 0)
+    (head ws : Bytes) (hpre : (head ++ ws).take 13 = statusPrefix) (hend : headEnd head = some head.length)
+    (segs : List Bytes) (hsegs : segs.flatten = head ++ ws) :
+    Agree g e 0 (upFeed g e {} segs []).2 (Rfc.run (rfcCfg g infl) {} 0 [] (Rfc.decode (ws.length + 1) ws)) := by
+  have h := c13_partial g e infl hinfl hl [ws]
+  simp only [List.flatten_cons, List.flatten_nil, List.append_nil] at h
+  exact agree_of_obs g e 0 _ _ _ (upFeed_handoff g e hl head ws hpre hend segs hsegs) h
 
 theorem hdrCheck_strict (rg : Rfc.Cfg) (st : Rfc.St) (f : Rfc.Frame) (h : f.masked = rg.server) :
     Rfc.hdrCheck { rg with strict := true } st f = Rfc.hdrCheck { rg with strict := false } st f := by
